@@ -306,8 +306,15 @@ def evaluate(ctx, spec, src, run, sig, x, ref, weight_bits, act_bits, per_channe
 def run_case(ctx, case, rng):
   spec = models.rand_model(rng, n_sub=1, n_ops=int(rng.integers(1, 7)), allow_unsupported=False, export_consumed_p=0.1) \
       if rng.random() < 0.85 else models.t_chain(rng)
+  if case % 256 == 11:
+    spec = models.t_huge_activation(rng)     # directed: 2^21-element activations with their extremes at odd positions
+    ctx.count('huge_activation_cases')
   sig = spec.signatures[0]
   x = gdata.sample(rng, sig, str(rng.choice(['normal', 'normal', 'scaled', 'positive'])))
+  if 'huge_activation' in spec.classes:
+    for v_ in x.values():
+      v_[0, :, 1037] += 40.0
+      v_[0, :, 411] -= 30.0
   ref = float_reference(spec, sig, x)
   if isinstance(ref, str):
     return {'outcome': 'skipped', 'reason': ref}
